@@ -464,6 +464,34 @@ func c17Limits(c *mon.Ctx) {
 				}
 			})
 		}
+		// a create event of a version whose room IDs derive from the create event, carrying a room_id member all the
+		// same: too long, or no room ID at all, it is refused like on every other event
+		if t.Domainless {
+			n++
+			if c.Mine(n) {
+				if create, err := buildEvent(ver, protoSpec{Type: "m.room.create", StateKey: strp(""), Sender: "@alice:a.example", Content: []byte(`{"room_version":"` + string(ver) + `"}`), Depth: 1}, id, baseTime); err == nil {
+					for label, rid := range map[string]string{
+						"256-code-points":         "!" + strings.Repeat("a", 245) + ":a.example",
+						"1013-code-points":        "!" + strings.Repeat("a", 1001) + ":a.example",
+						"313-code-points-wide":    "!" + strings.Repeat("é", 301) + ":a.example",
+						"no-sigil-300-characters": strings.Repeat("x", 300),
+					} {
+						rv := ref.MustParse(create.JSON())
+						rv.Set("room_id", ref.S(rid))
+						setContentHash(rv, t)
+						text := gen.Plain().Bytes(rv)
+						c.Case(fmt.Sprintf("limit:%s:create-event-room_id-member:%s", ver, label), map[string]any{"version": ver, "room_id_code_points": utf8.RuneCountInString(rid)}, func() {
+							c.Nontrivial(fmt.Sprintf("create-room-id|%s|%s", ver, label))
+							uev, err := impl.NewEventFromUntrustedJSON(text)
+							c.Count("limit_receipt_refused")
+							if err == nil && uev != nil {
+								c.Failf("limits:receipt:room_id:refused-reported-ok:create-event", "NewEventFromUntrustedJSON(v%s) accepts a create event with a room_id member of %d code points / %d bytes (%s)", ver, utf8.RuneCountInString(rid), len(rid), label)
+							}
+						})
+					}
+				}
+			}
+		}
 		// JSON size: the limit is in bytes, whatever the width of the characters that make up the bulk
 		for _, size := range []int{65535, 65536, 65537, 70000} {
 			for _, width := range []int{1, 3} {
@@ -556,6 +584,34 @@ func c17Limits(c *mon.Ctx) {
 						}
 						if want == "ok" && berr != nil {
 							c.Failf("limits:receipt:json:ok-reported-refused", "an event of %d bytes with a failing content hash is refused (v%s): %v", len(badText), ver, berr)
+						}
+					}
+					// the same number of bytes with the bulk in "unsigned" (or another member the parser drops on receipt): the
+					// event's JSON, as it arrives, is as large as before
+					{
+						sv := ref.MustParse(probe.JSON())
+						member := gen.Pick(c.Rand("bulk-member"), []string{"unsigned", "unsigned", "age_ts", "destinations"})
+						bulk := func(n int) *ref.Value {
+							if member == "unsigned" {
+								return ref.O("x", ref.S(body(n)))
+							}
+							return ref.S(body(n))
+						}
+						sv.Set(member, bulk(100))
+						spad := 100 + size - len(ref.Canon(rehashAndSign(sv, t)))
+						if spad > 0 {
+							sv.Set(member, bulk(spad))
+							stext := ref.Canon(rehashAndSign(sv, t))
+							if len(stext) == size {
+								sev, serr := impl.NewEventFromUntrustedJSON(stext)
+								c.Count("limit_receipt_json_bulk_in_dropped_member_" + want)
+								if want == "refused" && serr == nil {
+									c.Failf("limits:receipt:json:oversize-accepted-when-bulk-is-in-"+member, "NewEventFromUntrustedJSON(v%s) accepts an event of %d bytes whose bulk is in %q (the size is checked after that member has been dropped)", ver, len(stext), member)
+								}
+								if want == "ok" && (serr != nil || sev == nil) {
+									c.Failf("limits:receipt:json:ok-reported-refused", "an event of %d bytes with its bulk in %q is refused (v%s): %v", len(stext), member, ver, serr)
+								}
+							}
 						}
 					}
 					if expect == "ok" && ev != nil {
